@@ -8,11 +8,16 @@
 (* cloneS<h> / cloneR<h>, yield.  Item sent by task t: 10*t + k (k-th send *)
 (* of t).  The environment cancels scopes / tasks and, as a synchronous    *)
 (* callback outside any task, calls send_nowait / receive_nowait on handle *)
-(* 1 (items 1, 2, ...).                                                    *)
+(* 1 (items 1, 2, ...).  With Wrap = TRUE every client runs its operations *)
+(* inside "with CancelScope(shield=True): with CancelScope():" nested in    *)
+(* the scope the environment cancels: that cancellation is then invisible   *)
+(* to the operations (has_pending_cancellation must stop at the shield), so *)
+(* it is not reported to the observer as a cancellation request.            *)
 (***************************************************************************)
 EXTENDS AioMem, P_Chan, Json
 
-CONSTANTS Ops, MaxOps, MaxEnv, EnvKinds, MaxBuf, NS0, NR0
+CONSTANTS Ops, MaxOps, MaxEnv, EnvKinds, MaxBuf, NS0, NR0, Wrap,
+          Retry      \* TRUE: a client whose scope absorbed its cancellation opens a fresh one and carries on
 
 VARIABLES L, E, hist, pst, pbad
 vars == <<K, L, E, hist, pst, pbad>>
@@ -48,7 +53,10 @@ HasFree(m, side) == \E h \in 1..4 : m.hs[side][h] = "none"
 
 ClientInit(t) ==
   /\ At(K, t, "client", "init")
-  /\ K' = SetPc(ScopeEnter(K, t, FALSE, INF, E.pre[t], "task"), t, "choose")
+  /\ LET q1 == ScopeEnter(K, t, FALSE, INF, E.pre[t], "task")
+         q2 == IF Wrap THEN ScopeEnter(ScopeEnter(q1, t, TRUE, INF, FALSE, "shield"), t, FALSE, INF, FALSE, "inner")
+               ELSE q1
+     IN K' = SetPc(q2, t, "choose")
   /\ UNCHANGED <<L, E, hist, pst, pbad>>
 
 ClientChoose(t) ==
@@ -123,11 +131,19 @@ ClientRet(t) ==
         /\ K' = SetPc(K, t, IF IsCancel(r) THEN "fin" ELSE "choose")
   /\ UNCHANGED <<L, E, hist>>
 
+RECURSIVE ExitN(_, _, _, _)
+ExitN(q, t, x, n) == IF n = 1 THEN ScopeExit(q, t, x)
+                     ELSE LET r == ScopeExit(q, t, x) IN ExitN(r.q, t, r.reg, n - 1)
+
 ClientFin(t) ==
   /\ At(K, t, "client", "fin")
-  /\ LET x == ScopeExit(K, t, Reg(K, t)) IN
-     K' = IF IsExc(x.reg) THEN Raise(x.q, t, x.reg) ELSE Ret(x.q, t)
-  /\ UNCHANGED <<L, E, hist, pst, pbad>>
+  /\ LET x == ExitN(K, t, Reg(K, t), IF Wrap THEN 3 ELSE 1)
+         again == Retry /\ ~Wrap /\ x.caught IN
+     /\ K' = IF again THEN SetPc(ScopeEnter(x.q, t, FALSE, INF, FALSE, "task"), t, "choose")
+                  ELSE IF IsExc(x.reg) THEN Raise(x.q, t, x.reg) ELSE Ret(x.q, t)
+     /\ E' = IF again THEN [E EXCEPT !.scoped = @ \ {t}] ELSE E
+     /\ IF again THEN Feed([ev |-> "cdone", t |-> t]) ELSE UNCHANGED <<pst, pbad>>
+  /\ UNCHANGED <<L, hist>>
 
 LibStep(t) ==
   \/ /\ HelperEnabled(K, t)
@@ -158,7 +174,7 @@ EnvCancel(t) ==
           /\ K' = K
      ELSE /\ K' = ScopeCancel(K, <<t, 1>>)
           /\ E' = [E EXCEPT !.n = @ + 1, !.scoped = @ \cup {t}]
-  /\ Feed([ev |-> "creq", t |-> t, kind |-> "scope"])
+  /\ IF Wrap THEN UNCHANGED <<pst, pbad>> ELSE Feed([ev |-> "creq", t |-> t, kind |-> "scope"])
   /\ hist' = Append(hist, HE(t, "cancel"))
   /\ UNCHANGED L
 
